@@ -143,6 +143,79 @@
         assert!(env.render_named_str("g.html", "{% for i in [1, 2] %}{{ i }}{% endfor %}ok", ()).unwrap() == "12ok");
     }
 
+    // operand discipline: a construct that yields a value in the middle of an expression must leave the operands that
+    // were already pushed by the enclosing expression alone (found on the unchanged tree: a recursive loop call of a loop
+    // with an else branch left its did-not-iterate flag on the operand stack)
+//# ob name=operand_discipline_native role=native_bounded fn=compiler::codegen::{compile_for_loop,end_for_loop,compile_call}+vm::eval_impl(PushDidNotIterate,PopLoopFrame,CallFunction,CallBlock,FastSuper,FastRecurse) kind=bounded bound="recursive for loops over 5 trees (depth 0..=3) x else branch present / absent x 4 operand contexts (7 ~ loop(..), set z = 7 ~ loop(..), [7, loop(..)]|join, 7 ~ loop(..) ~ 8) x 4 wrappers (bare, with, set-block, macro); plus macro call, caller(), super(), self.block() and a call block's caller with arguments as the second operand of ~" stmt="no path makes the engine discard or replace an operand that the construct did not create: a value-yielding construct evaluated as the second operand of an enclosing expression leaves the first operand in place, so the expression's value is the one computed from both"
+    fn operand_discipline_native() {
+        use crate::Environment;
+        use crate::value::Value;
+        #[derive(Clone)]
+        struct Node { n: i64, c: Vec<Node> }
+        fn to_value(ns: &[Node]) -> Value {
+            Value::from(ns.iter().map(|x| crate::context! { n => x.n, c => to_value(&x.c) }).collect::<Vec<_>>())
+        }
+        // reference: what the loop body renders for a list of nodes, given how the operands combine
+        fn reference(ns: &[Node], ctx: usize) -> String {
+            let mut s = String::new();
+            for x in ns {
+                s.push('<');
+                s.push_str(&x.n.to_string());
+                if !x.c.is_empty() {
+                    let inner = reference(&x.c, ctx);
+                    match ctx { 0 | 1 => { s.push('7'); s.push_str(&inner); }, 2 => { s.push_str("7,"); s.push_str(&inner); }, _ => { s.push('7'); s.push_str(&inner); s.push('8'); } }
+                }
+                s.push('>');
+            }
+            s
+        }
+        let leaf = |n| Node { n, c: vec![] };
+        let trees: Vec<Vec<Node>> = vec![
+            vec![],
+            vec![leaf(1)],
+            vec![Node { n: 1, c: vec![leaf(2)] }],
+            vec![Node { n: 1, c: vec![Node { n: 2, c: vec![leaf(3)] }, leaf(4)] }, leaf(5)],
+            vec![Node { n: 1, c: vec![Node { n: 2, c: vec![Node { n: 3, c: vec![leaf(4)] }] }] }],
+        ];
+        let contexts = [
+            "{{ 7 ~ loop(it.c) }}",
+            "{% set z = 7 ~ loop(it.c) %}{{ z }}",
+            "{{ [7, loop(it.c)]|join(',') }}",
+            "{{ 7 ~ loop(it.c) ~ 8 }}",
+        ];
+        let wrappers = [("W", ""), ("{% with w = 1 %}W{% endwith %}", ""), ("{% set cap %}W{% endset %}[{{ cap }}]", "[]"), ("{% macro mm(tree) %}W{% endmacro %}{{ mm(tree) }}", "")];
+        let env = Environment::new();
+        let mut n = 0;
+        for tree in &trees { for has_else in [false, true] { for (ci, cx) in contexts.iter().enumerate() { for (wrap, kind) in wrappers {
+            let lp = format!("{{% for it in tree recursive %}}<{{{{ it.n }}}}{{% if it.c %}}{cx}{{% endif %}}>{}{{% endfor %}}", if has_else { "{% else %}E" } else { "" });
+            let src = format!("A{}Z", wrap.replace('W', &lp));
+            let mut body = reference(tree, ci);
+            if tree.is_empty() && has_else { body.push('E'); }
+            let want = if kind == "[]" { format!("A[{body}]Z") } else { format!("A{body}Z") };
+            let got = std::panic::catch_unwind(std::panic::AssertUnwindSafe(|| env.render_named_str("od.txt", &src, crate::context! { tree => to_value(tree) })));
+            match got {
+                Ok(Ok(out)) => assert!(out == want, "operand discipline: {src:?} rendered {out:?}, expected {want:?}"),
+                Ok(Err(e)) => panic!("{src:?} failed: {e:#}"),
+                Err(_) => panic!("{src:?} panicked"),
+            }
+            n += 1;
+        }}}}
+        assert!(n == 5 * 2 * 4 * 4);
+        // other value-yielding constructs as the second operand
+        let mut env = Environment::new();
+        env.add_template("base.txt", "{% block b %}base{% endblock %}|{% block c %}C{% endblock %}").unwrap();
+        for (src, want) in [
+            ("{% macro m() %}x{% endmacro %}{{ 7 ~ m() }}{{ [7, m()]|join(',') }}", "7x7,x"),
+            ("{% macro m() %}{{ 7 ~ caller() }}{{ 7 ~ caller() ~ 8 }}{% endmacro %}{% call m() %}y{% endcall %}", "7y7y8"),
+            ("{% macro m() %}{{ 7 ~ caller(1, 2) }}{% endmacro %}{% call(a, b) m() %}{{ a }}{{ b }}{% endcall %}", "712"),
+            ("{% extends 'base.txt' %}{% block b %}{{ 7 ~ super() }}{{ [7, super()]|join(',') }}{% endblock %}", "7base7,base|C"),
+            ("{% extends 'base.txt' %}{% block c %}{{ 7 ~ self.b() ~ 8 }}{% endblock %}", "base|7base8"),
+        ] {
+            let got = env.render_named_str("ov.txt", src, ()).unwrap_or_else(|e| panic!("{src:?}: {e:#}"));
+            assert!(got == want, "operand discipline: {src:?} rendered {got:?}, expected {want:?}");
+        }
+    }
+
     // listed known finding (feature loop_controls): break / continue compile to bare jumps
 //# ob name=break_continue_native role=native_bounded fn=compiler::codegen::compile_stmt(Break/Continue) kind=bounded bound="4 templates: break inside with, break inside set-block, continue inside with, continue inside a filter block, each inside a for loop" stmt="leaving a loop via break or continue from inside a with / set-block / filter block restores scope and capturing: text written after the loop reaches the output and nothing panics"
     fn break_continue_native() {
